@@ -116,13 +116,19 @@ def trigF04a (rows : List Row) (spec : Tree) : Bool :=
 /-- first token of a tree -/
 def firstTok (t : Tree) : Option Tok := t.yield.head?
 
+def isUnaryLookupTok : Option Tok → Bool
+  | some (.atom k _) => decide (4 ≤ k)
+  | _ => false
+
 /-- F04d trigger: the W3C derivation has a path step whose left operand is a parenthesised expression
-(1.0) or a lookup (3.1), or whose right operand starts with a variable reference (2.0) -/
+(1.0) or a postfix / unary lookup (3.1), or whose right operand starts with a variable reference (2.0) or a
+unary lookup (3.1) -/
 def trigF04d (ver : Nat) (rows : List Row) (spec : Tree) : Bool :=
   anyNode (fun t => match t with
     | .bin o l r => isPath (some (symOf rows o)) &&
         ((ver == 10 && (match l with | .group .. => true | _ => false)) ||
-         (ver == 31 && binSym rows l == some "?") ||
+         (ver == 31 && (binSym rows l == some "?" || (match l with | .atom k _ => decide (4 ≤ k) | _ => false) ||
+            isUnaryLookupTok (firstTok r))) ||
          (ver == 20 && (match firstTok r with | some (.atom 2 _) => true | _ => false)))
     | _ => false) spec
 
